@@ -24,6 +24,24 @@ CHECKS = {
         "text": "validate_iff, single_prohibition_denies, single_malformed_request_denies, validate_perm, unevaluable_denies, missing_information_denies are proved in Lean for all caveat sets (nested wrappers included), all request lists and orders over the registered caveat universe; the model functions are executed against CaveatSet.Validate/Prohibits on generated sets x request types and the kind x request-type product",
         "note": "model is hand-written; tie is differential (family clear). Caveat types registered by downstream users are outside the model. Decoding side of 'unknown types deny' (unknown numbers decode to UnregisteredCaveat) is covered by the wire model (C11).",
     },
+    "C09": {
+        "props": "Macaroon.Props.C09",
+        "families": ["resset"],
+        "pobs": "okdeny_unspec",
+        "technique": "Lean 4 proof (iff characterisations; mutual structural induction over nested caveat trees for monotonicity) + differential correspondence model/Go, exhaustive over a small universe",
+        "design_ref": "DESIGN.md §3 C09",
+        "text": "resset_permits_iff (named / prefix-covered / lone wildcard, action within the intersection of all matching masks), resset_unspecified, resset_mixed_denies, resset_error_classes, action_iff, ifPresent_semantics, ifPresent_never_unspecified and permit_antitone_in_action (every caveat tree of the registered universe, any nesting depth, every request) are proved in Lean; the model is run against the real Prohibits methods exhaustively over sets of <=2 entries x ids x masks x requests and on random conditionals of depth <=4",
+        "note": "tie is differential (family resset); P-observable = permit/deny and the ErrResourceUnspecified bit; full error-leaf sequence compared as fidelity observable.",
+    },
+    "C10": {
+        "props": "Macaroon.Props.C10",
+        "families": ["flyio"],
+        "pobs": "okdeny",
+        "technique": "Lean 4 proof (one iff per caveat kind, well-formedness iff by exhaustive case split) + differential correspondence model/Go incl. all 2^13 presence patterns; declarative validity-window rule evaluated against the implementation",
+        "design_ref": "DESIGN.md §3 C10",
+        "text": "organization_iff, resource_caveats_iff (8 kinds, instances of C09), mutations_iff, commands_iff (prefix / exact), allowedRoles_iff, isMember_iff, permittedRoles_spec, fromMachine_iff, flySrc_iff, isUser_permits, access_wf_iff are proved for all values; validityWindow_iff_partial is proved for bounds whose absolute time is representable, with validityWindow_overflow_witness recording what the int64 wrap-around does beyond; the exact-instant rule (Spec.inWindow) is executed against the implementation at and around the bounds, extreme bounds included",
+        "note": "tie is differential (family flyio); flyio.Access.Now() is the wall clock, used only far from any generated bound; MemberFeatures table cross-checked against the regenerated constants.",
+    },
 }
 
 # reasons for properties not claimed yet (MANIFEST.not_applicable)
